@@ -42,6 +42,12 @@ def a_zero(name, terms, rel=1e-8):
             "e": []}
 
 
+def a_bits(name, x, y):
+    """Bit-for-bit equality of two float arrays, decided by TLC on the hex strings of their bytes."""
+    hx = lambda v: np.ascontiguousarray(np.asarray(v, dtype=float)).tobytes().hex()
+    return {"name": name, "kind": "bits", "t": "", "terms": [], "tol": 0, "e": [], "s1": hx(x), "s2": hx(y)}
+
+
 def a_inv4(name, grid, rel=1e-8):
     return {"name": name, "kind": "inv4", "t": "", "terms": grid, "tol": tol_units(rel), "e": []}
 
